@@ -227,27 +227,7 @@ func runC15(c *Ctx) {
 		c.Check(len(why) == 0, "R3", "DeleteRange", fn.Pos(), "delete [BE64(min), BE64(max+1)) then write, unconditionally", strings.Join(why, "; "))
 	}
 	// R5
-	var rlEnc, rlDec *ssa.Function
-	for _, fn := range p.ModFuncs {
-		if fn.Signature.Recv() == nil || !namedIs(fn.Signature.Recv().Type(), pkgConsensus, "raftLog") {
-			continue
-		}
-		eachInstr(fn, func(in ssa.Instruction) {
-			if cc := callCommon(in); cc != nil && cc.StaticCallee() != nil && cc.StaticCallee().Pkg != nil && strings.Contains(cc.StaticCallee().Pkg.Pkg.Path(), "codec") {
-				if strings.HasPrefix(cc.StaticCallee().Name(), "NewEncoder") {
-					rlEnc = fn
-				}
-				if strings.HasPrefix(cc.StaticCallee().Name(), "NewDecoder") {
-					rlDec = fn
-				}
-			}
-		})
-	}
-	if rlEnc != nil && rlDec != nil {
-		sharedHandle(c, "R5", rlEnc, rlDec)
-	} else {
-		c.Fail("R5", "raftLog:codec", 0, "entries are not encoded/decoded with msgpack any more")
-	}
+	raftLogCodecHandle(c, "R5")
 	{
 		fn := m("GetLog")
 		okNF := false
